@@ -775,6 +775,9 @@ func (w *ethWorld) afterRecv(tx *ethTx, ok bool, log string, pre, post map[strin
 				key = "height_or_delay"
 			}
 			w.rec.Violate("C08", "unsound_accept", key+":"+tx.mut, "accepted %s (heightOK=%v proofOK=%v)", tx.desc, heightOK, proofOK)
+			// the same acceptance seen from the packet protocol (C02): the counterparty provably stored this packet
+			// hash at a height the installed client vouches for - here it did not
+			w.rec.Violate("C02", "accepted_unproven", key, "accepted %s (heightOK=%v proofOK=%v)", tx.desc, heightOK, proofOK)
 		}
 		return
 	}
